@@ -17,6 +17,9 @@ CLAIMED = {
  "C10": ("other", "ResponseWriter typestate (may-analysis of write histories) combined with SSA must-facts; status table with sibling agreement",
    "Decides the path clauses on all SSA paths of the five entry points and AuthorizePostInbox: not-handled returns are silent, error returns have no library write, nil returns have exactly one WriteHeader (or none on the denied edge of a gate that was handed the writer), every WriteHeader carries the documented constant for the condition that governs it and every documented row exists, the 201's Location is the id of the activity deliver returned, and the 400 sentinels are produced before any effect.",
    "What the application's gate writes on denial is outside the library; ResponseWriter faults are outside the fault model; 'usable id' for non-IRI ids is a value-level clause not decided. Trusted: go/types, go/ssa, checker transfer functions.", "DESIGN.md §4 C10"),
+ "C13": ("proof", "abstract evaluation of the generated predicate tables (go/ast + go/types) against an independently computed ontology closure",
+   "The whole statement is decided for the shipped vocabularies: the exact denotation of every Extends / IsExtendedBy / IsOrExtends / IsDisjointWith predicate (63 types x 4 families) is computed from source by an evaluator that accepts six statement forms and fails on anything else, and compared for all 63x63 ordered pairs with the transitive closure computed by the checker's own reader from the four JSON-LD ontologies; converse, symmetry and irreflexivity are checked on the extracted relations, and every exported wrapper and IsExtending method is resolved to the predicate it delegates to.",
+   "Trusted base: go/parser + go/types, the checker's JSON-LD reader and closure code, the evaluator's accepted forms, and that GetTypeName() returns the literal extracted (checked equal to the ontology name). Only the four shipped vocabularies are covered; the generator is not analysed.", "DESIGN.md §4 C13"),
 }
 NOT_YET = {}
 ALL = ["C%02d" % i for i in range(1, 21)]
